@@ -36,6 +36,15 @@ def order_labels(rng, labels, order):
         return sorted(labels, key=key)
     if order == "dec":
         return sorted(labels, key=key, reverse=True)
+    if order == "mid":
+        # sorted, but with the INTERIOR labels permuted: same first and last label as the increasing order
+        out = sorted(labels, key=key)
+        if len(out) >= 4:
+            inner = out[1:-1]
+            while inner == out[1:-1]:
+                rng.shuffle(inner)
+            out = [out[0]] + inner + [out[-1]]
+        return out
     out = list(labels)
     rng.shuffle(out)
     return out
@@ -48,7 +57,7 @@ def gen_arrays(rng, n=None, maxrank=3, allow_empty=True, same_dims=False, minn=0
     kinds = {d: rng.choice(["i", "f", "O", "i"]) for d in pool}
     bases = {}
     for d in pool:
-        bases[d], _ = gen.labels_of_kind(rng, kinds[d], rng.randint(max(1, minn), 4), "inc")
+        bases[d], _ = gen.labels_of_kind(rng, kinds[d], rng.randint(max(1, minn), 4) if rng.random() < 0.8 else 5, "inc")
     # a common direction for most cases so that the sorted-direction clause is exercised
     common_order = rng.choice(["inc", "dec", None, None])
     arrays = []
@@ -62,7 +71,7 @@ def gen_arrays(rng, n=None, maxrank=3, allow_empty=True, same_dims=False, minn=0
             labels = related_labels(rng, kinds[d], bases[d], how)
             if len(labels) < minn:
                 labels = list(bases[d])
-            order = common_order or rng.choice(["inc", "dec", "shuf"])
+            order = common_order or rng.choice(["inc", "dec", "shuf", "mid"])
             kind = kinds[d]
             if kind == "i" and rng.random() < 0.15:
                 kind = "f"      # mixed int / float kinds
